@@ -30,6 +30,9 @@ pub enum HistoryOp {
     /// point that converts checksums: the parser, `Checksum::try_from`, the typed value's text
     /// conversion, the builder. All of them refuse - after having looked at the entries before it.
     ChecksumPoison(u8, u8),
+    /// format a PURL whose user-written type reports an invalid type string: the documented panic,
+    /// caught - after which the thread goes on being used, as a server would
+    PanickingDisplay(u8),
 }
 
 #[derive(Clone, Debug, Serialize, Deserialize)]
@@ -156,6 +159,34 @@ fn run_checksum_poison(judged: &str, at: u8, how: u8) {
     });
 }
 
+struct BadType(&'static str);
+
+impl purl::PurlShape for BadType {
+    type Error = purl::ParseError;
+
+    fn package_type(&self) -> std::borrow::Cow<'_, str> {
+        std::borrow::Cow::Borrowed(self.0)
+    }
+
+    fn finish(&mut self, _parts: &mut purl::PurlParts) -> Result<(), Self::Error> {
+        Ok(())
+    }
+}
+
+fn run_panicking_display(judged: &str, k: u8) {
+    let bad = ["not a type", "", "a/b", "t%41", "é"][k as usize % 5];
+    let name = judged.rsplit('/').next().unwrap_or("n").split(['@', '?', '#']).next().unwrap_or("n");
+    let name = if name.is_empty() { "n" } else { name };
+    let _ = guard(|| {
+        let p = purl::GenericPurlBuilder::new(BadType(bad), name).with_namespace("g").with_version("1").build();
+        p.map(|p| {
+            let mut sink = Bounded { left: 1 << 20 };
+            let _ = write!(sink, "{p}");
+            p.to_string()
+        })
+    });
+}
+
 fn parse_all(s: &str) {
     let _ = parse::<IStr>(s);
     let _ = parse::<ISmall>(s);
@@ -183,6 +214,7 @@ pub fn run_prelude(ops: &[HistoryOp], judged: &str) {
                 }
             },
             HistoryOp::ChecksumPoison(at, how) => run_checksum_poison(judged, *at, *how),
+            HistoryOp::PanickingDisplay(k) => run_panicking_display(judged, *k),
             HistoryOp::TypedName(ty, k) => {
                 let name = judged.rsplit('/').next().unwrap_or(judged);
                 let name = name.split(['@', '?', '#']).next().unwrap_or(name);
@@ -203,6 +235,7 @@ pub fn gprelude() -> BoxedStrategy<Vec<HistoryOp>> {
         2 => (any::<u8>(), prop_oneof![0u16..40, 0u16..400]).prop_map(|(k, l)| HistoryOp::FormatBounded(k, l)),
         2 => (any::<u8>(), any::<u8>()).prop_map(|(t, k)| HistoryOp::TypedName(t, k)),
         2 => (any::<u8>(), any::<u8>()).prop_map(|(a, h)| HistoryOp::ChecksumPoison(a, h)),
+        1 => any::<u8>().prop_map(HistoryOp::PanickingDisplay),
     ];
     proptest::collection::vec(op, 1..=4).boxed()
 }
